@@ -490,3 +490,338 @@ Proof.
       * intros k' Hk. rewrite mlookup_mupsert. apply keqb_false in Hk. rewrite Hk. reflexivity.
       * apply KS_mupsert.
 Qed.
+
+(* ------------------------------------------------------------------ the node's own actions: maps *)
+Definition kin (k : list N) (ks : list (list N)) : bool := existsb (keqb k) ks.
+
+Lemma map_dels e id ks : forall m,
+  exists m',
+    apply_actions e (VMap id m) (map DeleteMap ks) = Some (VMap id m') /\
+    (forall k, mlookup k m' = if kin k ks then None else mlookup k m) /\
+    (KS m -> KS m').
+Proof.
+  induction ks as [|k0 t IH]; intros m; cbn [map apply_actions apply_action].
+  - exists m. split; [reflexivity|]. split; [intros k; reflexivity|auto].
+  - destruct (IH (mremove k0 m)) as [m' [A [L S]]]. exists m'. split; [exact A|]. split.
+    + intros k. rewrite L, mlookup_mremove. unfold kin. cbn [existsb].
+      destruct (keqb k k0); cbn [orb]; [destruct (existsb (keqb k) t); reflexivity|reflexivity].
+    + intros H. apply S, KS_mremove, H.
+Qed.
+
+Lemma In_keys_lookup {V} k (m : list (list N * V)) : In k (map fst m) -> mlookup k m <> None.
+Proof.
+  induction m as [|[k0 e0] t IH]; cbn [map fst In mlookup]; [intros []|].
+  intros [H|H].
+  - subst. rewrite keqb_refl. discriminate.
+  - destruct (keqb k k0); [discriminate|]. apply IH, H.
+Qed.
+
+Lemma lookup_In_keys {V} k (m : list (list N * V)) x : mlookup k m = Some x -> In k (map fst m).
+Proof. intros H. apply mlookup_In in H. apply (in_map fst) in H. exact H. Qed.
+
+Lemma KS_NoDup {V} (m : list (list N * V)) : KS m -> NoDup (map fst m).
+Proof.
+  induction 1 as [|k e t A S IH]; cbn [map fst]; constructor; [|exact IH].
+  intros Hin. apply in_map_iff in Hin. destruct Hin as [[k' e'] [E Hin]]. cbn in E. subst k'.
+  specialize (A k e' Hin). rewrite (cmp_refl _ bytes_cmp_total) in A. discriminate.
+Qed.
+
+Definition entry_acts_of (m1 : vmap) (ke : list N * ventry) : list paction :=
+  entry_actions (PMap (fst ke)) (mlookup (fst ke) m1) (fst (snd ke)) (snd (snd ke)).
+
+Lemma map_puts e id m1 es : forall m,
+  NoDup (map fst es) ->
+  (forall k, In k (map fst es) -> mlookup k m = mlookup k m1) ->
+  exists m',
+    apply_actions e (VMap id m) (flat_map (entry_acts_of m1) es) = Some (VMap id m') /\
+    (forall k c2 f2, In (k, (c2, f2)) es -> mlookup k m' = Some (base_of (mlookup k m1) c2 f2, f2)) /\
+    (forall k, ~ In k (map fst es) -> mlookup k m' = mlookup k m) /\
+    (KS m -> KS m').
+Proof.
+  induction es as [|[k [c2 f2]] t IH]; intros m ND Hm; cbn [flat_map].
+  - exists m. split; [reflexivity|]. split; [intros ? ? ? []|]. split; auto.
+  - cbn [map fst] in ND. inversion ND as [|? ? Hnk ND']; subst.
+    unfold entry_acts_of at 1. cbn [fst snd].
+    destruct (map_entry_actions e id k (mlookup k m1) c2 f2 m) as [ma [A [La [Lo Sa]]]].
+    { apply Hm. left. reflexivity. }
+    destruct (IH ma ND') as [m' [A' [L' [Lo' S']]]].
+    { intros k' Hin. rewrite Lo; [apply Hm; right; exact Hin|]. intros ->. contradiction. }
+    exists m'. split; [rewrite apply_actions_app, A; exact A'|]. split; [|split].
+    + intros k' c' f' [H|H].
+      * inversion H; subst. rewrite Lo' by exact Hnk. exact La.
+      * apply L', H.
+    + intros k' Hn. cbn [map fst In] in Hn. rewrite Lo'; [|tauto]. apply Lo. intros ->. tauto.
+    + intros H. apply S', Sa, H.
+Qed.
+
+Definition mid_entry (m1 : vmap) (ke : list N * ventry) : list N * ventry :=
+  (fst ke, (base_of (mlookup (fst ke) m1) (fst (snd ke)) (snd (snd ke)), snd (snd ke))).
+Definition mid_map (m1 m2 : vmap) : vmap := map (mid_entry m1) m2.
+
+Lemma mlookup_mid m1 m2 k :
+  mlookup k (mid_map m1 m2) =
+  match mlookup k m2 with
+  | Some (c2, f2) => Some (base_of (mlookup k m1) c2 f2, f2)
+  | None => None
+  end.
+Proof.
+  unfold mid_map. induction m2 as [|[k0 [c f]] t IH]; cbn [map mlookup mid_entry fst snd]; [reflexivity|].
+  destruct (keqb k k0) eqn:E; [|exact IH]. apply keqb_spec in E. subst. reflexivity.
+Qed.
+
+Lemma KS_mid m1 m2 : KS m2 -> KS (mid_map m1 m2).
+Proof.
+  unfold mid_map. induction 1 as [|k en t A S IH]; cbn [map]; [constructor|].
+  unfold mid_entry at 1. cbn [fst snd]. constructor; [|exact IH].
+  intros k' e' Hin. apply in_map_iff in Hin. destruct Hin as [[k1 e1] [E Hin]].
+  unfold mid_entry in E. cbn [fst snd] in E. inversion E; subst. eapply A, Hin.
+Qed.
+
+Lemma kin_dkeys m1 m2 k : kin k (dkeys m1 m2) = true -> mlookup k m2 = None.
+Proof.
+  unfold kin, dkeys. intros H. apply existsb_exists in H. destruct H as [k' [Hin E]].
+  apply keqb_spec in E. subst k'. apply in_flat_map in Hin. destruct Hin as [[k0 e0] [_ Hin]].
+  cbn [fst] in Hin. destruct (mlookup k0 m2) eqn:L; [destruct Hin|].
+  destruct Hin as [<-|[]]. exact L.
+Qed.
+
+Lemma dkeys_kin m1 m2 k x : In (k, x) m1 -> mlookup k m2 = None -> kin k (dkeys m1 m2) = true.
+Proof.
+  intros Hin L. unfold kin, dkeys. apply existsb_exists. exists k. split; [|apply keqb_refl].
+  apply in_flat_map. exists (k, x). split; [exact Hin|]. cbn [fst]. rewrite L. left. reflexivity.
+Qed.
+
+Lemma map_shallow e id m1 m2 :
+  KS m1 -> KS m2 ->
+  apply_actions e (VMap id m1) (map_actions m1 m2) = Some (VMap id (mid_map m1 m2)).
+Proof.
+  intros S1 S2. unfold map_actions. rewrite apply_actions_app.
+  destruct (map_dels e id (dkeys m1 m2) m1) as [md [A [L S]]]. rewrite A.
+  destruct (map_puts e id m1 m2 md (KS_NoDup _ S2)) as [m' [A' [L' [Lo' S']]]].
+  { intros k Hin. rewrite L. destruct (kin k (dkeys m1 m2)) eqn:K; [|reflexivity].
+    apply kin_dkeys in K. apply In_keys_lookup in Hin. contradiction. }
+  fold (entry_acts_of m1). rewrite A'. do 2 f_equal.
+  apply KS_ext; [apply S', S, S1|apply KS_mid, S2|].
+  intros k. rewrite mlookup_mid. destruct (mlookup k m2) as [[c2 f2]|] eqn:E2.
+  - apply L'. apply mlookup_In, E2.
+  - rewrite Lo'.
+    + rewrite L. destruct (kin k (dkeys m1 m2)) eqn:K; [reflexivity|].
+      destruct (mlookup k m1) as [x|] eqn:E1; [|reflexivity].
+      apply mlookup_In in E1. rewrite (dkeys_kin _ _ _ _ E1 E2) in K. discriminate.
+    + intros Hin. apply In_keys_lookup in Hin. contradiction.
+Qed.
+
+(* ------------------------------------------------------------------ the node's own actions: lists *)
+Lemma list_entry_actions e id pre en1 t c2 f2 :
+  apply_actions e (VList id (pre ++ en1 :: t))
+                (entry_actions (PSeq (N.of_nat (length pre))) (Some en1) c2 f2)
+  = Some (VList id (pre ++ (base_of (Some en1) c2 f2, f2) :: t)).
+Proof.
+  destruct en1 as [c1 f1]. unfold entry_actions, base_of.
+  destruct (keeps (Some (c1, f1)) c2 f2) eqn:K.
+  - cbn [keeps] in K. apply andb_true_iff in K. destruct K as [_ Kf]. cbn [flag_patch].
+    destruct (negb f1 && f2) eqn:F.
+    + cbn [apply_actions apply_action]. rewrite get_at_app, set_at_app. cbn [fst].
+      assert (f2 = true) by (destruct f1, f2; cbn in F; congruence). subst f2. reflexivity.
+    + cbn [apply_actions].
+      assert (f1 = f2) by (destruct f1, f2; cbn in F, Kf; congruence). subst f2. reflexivity.
+  - destruct (increments (Some (c1, f1)) c2 f2) as [d|] eqn:I.
+    + cbn [increments] in I. destruct (implb f1 f2) eqn:Kf; [|discriminate].
+      destruct c1 as [[| | | | | | |x| |]| | |]; try discriminate.
+      destruct c2 as [[| | | | | | |y| |]| | |]; try discriminate.
+      cbn [counter_delta] in I. inversion I; subst d. clear I.
+      cbn [apply_actions apply_action]. rewrite get_at_app. cbn [inc_entry].
+      replace (x + (y - x))%Z with y by lia. rewrite set_at_app.
+      cbn [flag_patch empty_like pv_of new_view].
+      destruct (negb f1 && f2) eqn:F.
+      * cbn [apply_actions apply_action]. rewrite get_at_app, set_at_app. cbn [fst].
+        assert (f2 = true) by (destruct f1, f2; cbn in F; congruence). subst f2. reflexivity.
+      * cbn [apply_actions].
+        assert (f1 = f2) by (destruct f1, f2; cbn in F, Kf; congruence). subst f2. reflexivity.
+    + cbn [put_action apply_actions apply_action]. rewrite get_at_app, set_at_app. reflexivity.
+Qed.
+
+Fixpoint lmid (l1 l2 : list ventry) : list ventry :=
+  match l2 with
+  | [] => []
+  | en2 :: t2 => (base_of (hd_error l1) (fst en2) (snd en2), snd en2) :: lmid (tl l1) t2
+  end.
+
+Lemma lmid_nil l2 :
+  lmid [] l2 = map new_entry (map (fun en => (pv_of (fst en), snd en)) l2).
+Proof.
+  induction l2 as [|[c f] t IH]; cbn [lmid map hd_error tl fst snd]; [reflexivity|].
+  rewrite IH. reflexivity.
+Qed.
+
+Lemma len_snoc {A} (pre : list A) x : N.of_nat (length pre) + 1 = N.of_nat (length (pre ++ [x])).
+Proof. rewrite app_length. cbn [length]. lia. Qed.
+
+Lemma list_shallow e id l2 : forall l1 pre,
+  apply_actions e (VList id (pre ++ l1)) (list_actions (N.of_nat (length pre)) l1 l2)
+  = Some (VList id (pre ++ lmid l1 l2)).
+Proof.
+  induction l2 as [|en2 t2 IH]; intros l1 pre.
+  - destruct l1 as [|en1 t1]; cbn [list_actions lmid].
+    + reflexivity.
+    + cbn [apply_actions apply_action]. rewrite delete_at_tail, app_nil_r. reflexivity.
+  - destruct l1 as [|en1 t1]; cbn [list_actions].
+    + cbn [apply_actions apply_action]. rewrite app_nil_r, insert_at_end, lmid_nil. reflexivity.
+    + rewrite apply_actions_app, list_entry_actions. cbn [lmid hd_error tl].
+      rewrite (len_snoc pre (base_of (Some en1) (fst en2) (snd en2), snd en2)).
+      replace (pre ++ (base_of (Some en1) (fst en2) (snd en2), snd en2) :: t1)
+        with ((pre ++ [(base_of (Some en1) (fst en2) (snd en2), snd en2)]) ++ t1)
+        by (rewrite <- app_assoc; reflexivity).
+      rewrite IH. rewrite <- app_assoc. reflexivity.
+Qed.
+
+(* ------------------------------------------------------------------ texts *)
+Lemma text_apply e id u1 u2 :
+  apply_actions e (VText id u1) (text_actions u1 u2) = Some (VText id u2).
+Proof.
+  unfold text_actions. destruct (nlist_eqb u1 u2) eqn:E.
+  - apply nlist_eqb_spec in E. subst. reflexivity.
+  - assert (D : forall u, apply_actions e (VText id u)
+                 (match u with [] => [] | _ :: _ => [DeleteSeq 0 (N.of_nat (length u))] end)
+               = Some (VText id [])).
+    { intros [|x t]; [reflexivity|]. cbn [apply_actions apply_action].
+      pose proof (delete_at_tail (@nil N) (x :: t)) as H. cbn [app] in H.
+      change (N.of_nat (length (@nil N))) with 0 in H. rewrite H. reflexivity. }
+    rewrite apply_actions_app, D. destruct u2 as [|y t]; [reflexivity|].
+    cbn [apply_actions apply_action].
+    pose proof (insert_at_end (@nil N) (y :: t)) as H. cbn [app] in H.
+    change (N.of_nat (length (@nil N))) with 0 in H. rewrite H. reflexivity.
+Qed.
+
+(* ------------------------------------------------------------------ patches of a child *)
+Lemma apply_push_map e id k ps : forall m c f c',
+  mlookup k m = Some (c, f) -> apply_patches e ps c = Some c' ->
+  apply_patches e (map (push_step (id, PMap k)) ps) (VMap id m) = Some (VMap id (mset k (c', f) m)).
+Proof.
+  induction ps as [|p t IH]; intros m c f c' L A; cbn [map apply_patches] in *.
+  - inversion A; subst. rewrite mset_same by exact L. reflexivity.
+  - destruct (apply_patch e c p) as [c1|] eqn:E; [|discriminate].
+    unfold apply_patch at 1. cbn [push_step p_path p_obj p_action apply_at].
+    unfold id_is at 1. cbn [view_id]. rewrite opid_eqb_refl, L.
+    unfold apply_patch in E. rewrite E.
+    rewrite (IH (mset k (c1, f) m) c1 f c'); [|rewrite mlookup_mset, keqb_refl, L; reflexivity|exact A].
+    rewrite mset_mset. reflexivity.
+Qed.
+
+Lemma apply_push_list e id ps : forall pre c f t c',
+  apply_patches e ps c = Some c' ->
+  apply_patches e (map (push_step (id, PSeq (N.of_nat (length pre)))) ps) (VList id (pre ++ (c, f) :: t))
+  = Some (VList id (pre ++ (c', f) :: t)).
+Proof.
+  induction ps as [|p r IH]; intros pre c f t c' A; cbn [map apply_patches] in *.
+  - inversion A; subst. reflexivity.
+  - destruct (apply_patch e c p) as [c1|] eqn:E; [|discriminate].
+    unfold apply_patch at 1. cbn [push_step p_path p_obj p_action apply_at].
+    unfold id_is at 1. cbn [view_id]. rewrite opid_eqb_refl, get_at_app.
+    unfold apply_patch in E. rewrite E, set_at_app.
+    apply IH, A.
+Qed.
+
+(* ------------------------------------------------------------------ diff_apply *)
+Definition Pdiff (e : enc) (v2 : view) : Prop :=
+  forall v1, same_shell v1 v2 = true -> wf_node v1 = true -> wf_node v2 = true ->
+  apply_patches e (diff v1 v2) v1 = Some v2.
+
+Lemma wf_base old c2 f2 :
+  (forall c1 f1, old = Some (c1, f1) -> wf_node c1 = true) -> wf_node (base_of old c2 f2) = true.
+Proof.
+  intros H. unfold base_of. destruct (keeps old c2 f2) eqn:K; [|apply wf_node_empty_like].
+  destruct old as [[c1 f1]|]; [|discriminate]. eapply H. reflexivity.
+Qed.
+
+Lemma map_children_apply e id m1 rest : forall pre,
+  Forall (fun ke => wf_node (fst (snd ke)) = true) m1 ->
+  Forall (fun ke => Pdiff e (fst (snd ke))) rest ->
+  Forall (fun ke => wf_node (fst (snd ke)) = true) rest ->
+  KS (pre ++ rest) ->
+  apply_patches e (map_children diff id m1 rest) (VMap id (pre ++ mid_map m1 rest))
+  = Some (VMap id (pre ++ rest)).
+Proof.
+  induction rest as [|[k [c2 f2]] t IH]; intros pre W1 HP W2 S; cbn [map_children flat_map mid_map map].
+  - reflexivity.
+  - inversion HP as [|? ? P1 HP']; subst. inversion W2 as [|? ? Wc W2']; subst. cbn [fst snd] in *.
+    unfold mid_entry at 1. cbn [fst snd].
+    set (b := base_of (mlookup k m1) c2 f2).
+    assert (Hb : apply_patches e (diff b c2) b = Some c2).
+    { apply P1; [apply base_same_shell| |exact Wc].
+      apply wf_base. intros c1 f1 E. apply mlookup_In in E.
+      rewrite Forall_forall in W1. apply (W1 _ E). }
+    pose proof (KS_app_lookup_none _ _ _ _ S) as Hn.
+    apply apply_patches_app_some with (v1 := VMap id (pre ++ (k, (c2, f2)) :: mid_map m1 t)).
+    + rewrite (apply_push_map e id k _ _ b f2 c2);
+        [|rewrite mlookup_app_none by exact Hn; cbn [mlookup]; rewrite keqb_refl; reflexivity|exact Hb].
+      rewrite mset_app_none by exact Hn. cbn [mset]. rewrite keqb_refl. reflexivity.
+    + replace (pre ++ (k, (c2, f2)) :: mid_map m1 t) with ((pre ++ [(k, (c2, f2))]) ++ mid_map m1 t)
+        by (rewrite <- app_assoc; reflexivity).
+      replace (pre ++ (k, (c2, f2)) :: t) with ((pre ++ [(k, (c2, f2))]) ++ t)
+        by (rewrite <- app_assoc; reflexivity).
+      apply IH; [exact W1|exact HP'|exact W2'|]. rewrite <- app_assoc. exact S.
+Qed.
+
+Lemma list_children_apply e id rest : forall l1 pre,
+  Forall (fun en => wf_node (fst en) = true) l1 ->
+  Forall (fun en => Pdiff e (fst en)) rest ->
+  Forall (fun en => wf_node (fst en) = true) rest ->
+  apply_patches e (list_children diff id (N.of_nat (length pre)) l1 rest) (VList id (pre ++ lmid l1 rest))
+  = Some (VList id (pre ++ rest)).
+Proof.
+  induction rest as [|[c2 f2] t IH]; intros l1 pre W1 HP W2; cbn [list_children lmid].
+  - reflexivity.
+  - inversion HP as [|? ? P1 HP']; subst. inversion W2 as [|? ? Wc W2']; subst. cbn [fst snd] in *.
+    set (b := base_of (hd_error l1) c2 f2).
+    assert (Hb : apply_patches e (diff b c2) b = Some c2).
+    { apply P1; [apply base_same_shell| |exact Wc].
+      apply wf_base. intros c1 f1 E. destruct l1 as [|x l1']; [discriminate|].
+      cbn [hd_error] in E. inversion E; subst. inversion W1; subst. assumption. }
+    apply apply_patches_app_some with (v1 := VList id (pre ++ (c2, f2) :: lmid (tl l1) t)).
+    + apply apply_push_list, Hb.
+    + rewrite (len_snoc pre (c2, f2)).
+      replace (pre ++ (c2, f2) :: lmid (tl l1) t) with ((pre ++ [(c2, f2)]) ++ lmid (tl l1) t)
+        by (rewrite <- app_assoc; reflexivity).
+      replace (pre ++ (c2, f2) :: t) with ((pre ++ [(c2, f2)]) ++ t)
+        by (rewrite <- app_assoc; reflexivity).
+      apply IH; [|exact HP'|exact W2']. destruct l1; [constructor|]. inversion W1; assumption.
+Qed.
+
+Theorem diff_apply_node e : forall v2, Pdiff e v2.
+Proof.
+  induction v2 as [s|id m2 IH|id l2 IH|id u2] using view_ind2; intros v1 SS W1 W2.
+  - destruct v1; cbn in SS; try discriminate. apply scalar_eqb_spec in SS. subst. reflexivity.
+  - destruct v1 as [|id1 m1| |]; cbn in SS; try discriminate. apply opid_eqb_spec in SS. subst id1.
+    apply wf_node_map in W1. destruct W1 as [K1 F1]. apply wf_node_map in W2. destruct W2 as [K2 F2].
+    apply keys_sorted_KS in K1. apply keys_sorted_KS in K2.
+    cbn [diff map_of].
+    apply apply_patches_app_some with (v1 := VMap id (mid_map m1 m2)).
+    + rewrite apply_here; [apply map_shallow; assumption|].
+      unfold id_is. cbn [view_id]. apply opid_eqb_refl.
+    + apply (map_children_apply e id m1 m2 []); assumption.
+  - destruct v1 as [| |id1 l1|]; cbn in SS; try discriminate. apply opid_eqb_spec in SS. subst id1.
+    apply wf_node_list in W1. apply wf_node_list in W2.
+    cbn [diff list_of].
+    apply apply_patches_app_some with (v1 := VList id (lmid l1 l2)).
+    + rewrite apply_here; [apply (list_shallow e id l2 l1 [])|].
+      unfold id_is. cbn [view_id]. apply opid_eqb_refl.
+    + apply (list_children_apply e id l2 l1 []); assumption.
+  - destruct v1 as [| | |id1 u1]; cbn in SS; try discriminate. apply opid_eqb_spec in SS. subst id1.
+    cbn [diff text_of_view]. rewrite apply_here; [apply text_apply|].
+    unfold id_is. cbn [view_id]. apply opid_eqb_refl.
+Qed.
+
+Theorem diff_apply e v1 v2 : wf_view v1 -> wf_view v2 -> apply_patches e (diff v1 v2) v1 = Some v2.
+Proof.
+  intros [W1 [m1 ->]] [W2 [m2 ->]]. apply diff_apply_node; [|exact W1|exact W2].
+  cbn [same_shell]. apply opid_eqb_refl.
+Qed.
+
+Lemma wf_viewb_spec v : wf_viewb v = true <-> wf_view v.
+Proof.
+  unfold wf_viewb, wf_view. split.
+  - intros H. apply andb_true_iff in H. destruct H as [H1 H2]. split; [exact H1|].
+    destruct v; try discriminate. apply opid_eqb_spec in H2. subst. eexists. reflexivity.
+  - intros [H1 [m ->]]. rewrite H1. reflexivity.
+Qed.
